@@ -24,6 +24,8 @@ CONSTANTS Modes,        \* subset of {"compress", "decompress"}
           Existing,     \* what already sits at the output name: "none", "file", "directory"
           Contents,     \* "good" (what the mode expects), "bad" (not a bzip2 file when decompressing)
           ModeBits,     \* set of permission classes, e.g. {"0644", "0600", "0755", "4755"}
+          ErrModes,     \* subset of BOOLEAN: TRUE = standard error cannot be written (e.g. 2>/dev/full): a diagnostic that
+                        \* cannot be printed is itself a fatal error (log_generic -> bailout)
           MaxOperands   \* length of operand lists for the fold property
 
 CompSuffixes == {".bz2", ".tbz2", ".tbz", ".tz2"}
@@ -66,28 +68,35 @@ Effect(mode, opts, op) ==
         creates_output |-> om = "regf",
         reason |-> IF om = "regf" /\ op.bits = "4755" THEN "special bits dropped" ELSE "ok"]
 
+\* with standard error unwritable, the warning of a skipped operand cannot be printed: fatal at that operand
+EffectE(mode, opts, op, errfull) ==
+  LET e == Effect(mode, opts, op) IN
+  IF errfull /\ e.outcome = "skip" THEN [e EXCEPT !.outcome = "fatal", !.reason = "cannot print: " \o e.reason] ELSE e
+
 \* exit status of a list of operands; processing stops at the first fatal one
-RECURSIVE Status(_, _, _, _)
-Status(mode, opts, ops, warned) ==
+RECURSIVE Status(_, _, _, _, _)
+Status(mode, opts, ops, warned, errfull) ==
   IF ops = <<>> THEN (IF warned THEN 4 ELSE 0)
-  ELSE LET e == Effect(mode, opts, Head(ops)) IN
+  ELSE LET e == EffectE(mode, opts, Head(ops), errfull) IN
        IF e.outcome = "fatal" THEN 1
-       ELSE Status(mode, opts, Tail(ops), warned \/ e.outcome = "skip" \/ e.reason = "special bits dropped")
-Processed(mode, opts, ops) ==          \* how many operands are dealt with before a fatal one stops the run
+       ELSE Status(mode, opts, Tail(ops), warned \/ e.outcome = "skip" \/ e.reason = "special bits dropped", errfull)
+Processed(mode, opts, ops, errfull) == \* how many operands are dealt with before a fatal one stops the run
   LET F[i \in 0..Len(ops)] == IF i = 0 THEN 0
                               ELSE IF F[i - 1] < i - 1 THEN F[i - 1]
-                              ELSE IF Effect(mode, opts, ops[i]).outcome = "fatal" THEN i - 1 ELSE i
+                              ELSE IF EffectE(mode, opts, ops[i], errfull).outcome = "fatal" THEN i - 1 ELSE i
   IN F[Len(ops)]
 
 Operands == [kind : Kinds, suffix : Suffixes, existing : Existing, content : Contents, bits : ModeBits]
 Sensible(op) == /\ (op.kind \in {"missing", "directory", "fifo"} => op.content = "good" /\ op.bits = "0644")
                 /\ (op.existing # "none" => op.bits = "0644")
-Scenarios == {[mode |-> m, opts |-> o, ops |-> s] : m \in Modes, o \in OptSets,
+Scenarios == {[mode |-> m, opts |-> o, ops |-> s, errfull |-> ef] : m \in Modes, o \in OptSets, ef \in ErrModes,
               s \in UNION {[1..n -> {op \in Operands : Sensible(op)}] : n \in 1..MaxOperands}}
 \* a fifo operand is only ever looked at, never opened (it would block)
 Safe(sc) == \A i \in 1..Len(sc.ops) : sc.ops[i].kind = "fifo" => (OutMode(sc.mode, sc.opts) = "regf" /\ "f" \notin sc.opts)
 \* -c and -t are incompatible
-Legal(sc) == ~({"c", "t"} \subseteq sc.opts)
+Legal(sc) == /\ ~({"c", "t"} \subseteq sc.opts)
+             \* with standard error unwritable only runs whose sole diagnostics are skip warnings / fatal errors are modelled
+             /\ sc.errfull => ("v" \notin sc.opts /\ \A i \in 1..Len(sc.ops) : sc.ops[i].bits # "4755")
 
 VARIABLES sc, phase
 vars == <<sc, phase>>
@@ -95,10 +104,10 @@ Init == sc \in {x \in Scenarios : Safe(x) /\ Legal(x)} /\ phase = "new"
 Next == phase = "new" /\ phase' = "done" /\ UNCHANGED sc
 Spec == Init /\ [][Next]_vars
 
-Expected(x) == [mode |-> x.mode, opts |-> x.opts, ops |-> x.ops,
-                effects |-> [i \in 1..Len(x.ops) |-> Effect(x.mode, x.opts, x.ops[i])],
-                processed |-> Processed(x.mode, x.opts, x.ops),
-                status |-> Status(x.mode, x.opts, x.ops, FALSE),
+Expected(x) == [mode |-> x.mode, opts |-> x.opts, ops |-> x.ops, errfull |-> x.errfull,
+                effects |-> [i \in 1..Len(x.ops) |-> EffectE(x.mode, x.opts, x.ops[i], x.errfull)],
+                processed |-> Processed(x.mode, x.opts, x.ops, x.errfull),
+                status |-> Status(x.mode, x.opts, x.ops, FALSE, x.errfull),
                 om |-> OutMode(x.mode, x.opts), dec |-> Dec(x.mode, x.opts)]
 \* C17, as invariants of the model itself
 NeverClobbers == \A i \in 1..Len(sc.ops) :
